@@ -116,3 +116,19 @@ PROPS["C10"] = {
     "level_note": "Bounds: input lengths; message dictionary; one permuted loop at a time. Trusted: go/ssa, gosym, z3, the transliterated reference (validated against pinned official ids).",
     "technique": "bounded symbolic execution of the go/ssa form; implementation and reference intern to the same bit-vector term when equal, otherwise z3 finds distinguishing bytes; map order modelled as nondeterministic choices",
 }
+
+# ---------------------------------------------------------------- C20
+PROPS["C20"] = {
+    "jobs": [
+        Job("data", "H_equals", "0..10,0..10", workers=8),
+        Job("data", "H_truthy", "0..10", workers=4),
+        Job("data", "H_index", "0..3", workers=4),
+        Job("data", "H_mapString", "false", workers=4),
+        Job("data", "H_mapString", "true", workers=8, note="all iteration orders"),
+    ],
+    "bounds": "all pairs of the 11 value kinds (undefined, null, bool, int64, float64 bit patterns incl. NaN/inf/-0, 1-byte string, empty string, two list and two map instances) with symbolic payloads; List.Index with any int index on lists of length 0..3; Map.Key with any 1-byte key; Map.String of a 4-entry map with symbolic 1-byte values under every iteration order (24 orders)",
+    "outside": "conversion from Go values (data.New/NewWith/StructOptions are reflect programs: the engine has no model of reflect over arbitrary host types, so faithfulness and idempotence of conversion are NOT claimed); Tofu.Render's argument conversion for the same reason; strings longer than 1 byte in the value laws; printing of floats/large ints (strconv) is run natively only for concrete values",
+    "assumptions": ["reflect.ValueOf(x).Pointer() on a list/map is modelled as the identity of its backing object"],
+    "level_text": "Bounded symbolic model checking of data/value.go: value kind pairs are enumerated, payloads (int64, float64 bit patterns, bytes, booleans) are solver variables, so laws that fail only for rare payloads (NaN) are decided rather than sampled. Only the value-law half of the property is claimed.",
+    "level_note": "Conversion (data/convert.go) is outside the technique's reach and is not claimed. Trusted: go/ssa, gosym, z3 floating-point theory.",
+}
